@@ -45,7 +45,25 @@ def setup(P):
         s = param.Parameter(default='abca')
         l = param.Parameter(default=[1, 2, 3])
 
+    class EqSrc(Src):
+        """value-style comparison: the two input objects compare equal and hash alike; they are still two objects"""
+        def __eq__(self, other):
+            return isinstance(other, Src)
+
+        def __hash__(self):
+            return 1
+
+    class Holder(param.Parameterized):
+        """holds one of the input objects; its method depends on a parameter of that sub-object"""
+        sub = param.Parameter(default=None)
+
+        @param.depends('sub.a')
+        def total(self):
+            return (self.sub.a, 'via-method')
+
     _st['Src'] = Src
+    _st['EqSrc'] = EqSrc
+    _st['Holder'] = Holder
 
 
 BIN = [('add', operator.add), ('sub', operator.sub), ('mul', operator.mul), ('truediv', operator.truediv),
@@ -101,6 +119,9 @@ def build(rng, P, rep, table_mode=False):
     param = _st['param']
     rx, bind = param.rx, param.bind
     Src = _st['Src']
+    if rng.random() < 0.2:
+        Src = _st['EqSrc']
+        rep.count('equal_comparing_input_objects')
     src, src2 = Src(), Src(a=5, s='xyz', l=[4, 5])
     rootvals = [2, 5]
     roots = [rx(rootvals[0]), rx(rootvals[1])]
@@ -142,6 +163,10 @@ def build(rng, P, rep, table_mode=False):
              # a bound function handed to another bound function by keyword; the inner one has several inputs
              Node(rx(bind(lambda x, inner=0: x - inner, src2.param.a, inner=bind(lambda p, q, r: p * 100 + q * 7 + r, src.param.a, roots[1], src2.param.a))),
                   lambda: src2.a - (src.a * 100 + rootvals[1] * 7 + src2.a), 'bind(a2,inner=bind(a,r1,a2))', 'num', 'bind', ins=['a2', 'a', 'r1'])]
+    if rng.random() < 0.5:
+        # an expression rooted in a method whose declared dependency is a parameter of a sub-object
+        holder = _st['Holder'](sub=src)
+        nodes.append(Node(rx(holder.total), lambda: (src.a, 'via-method'), 'rx(method depending on sub.a)', 'any', 'method-dep', ins=['a']))
     dnode = Node(droot, lambda: dval[0], 'D', 'dict', 'root', ins=['D'])
     snode = Node(sroot, lambda: sval[0], 'S', 'set', 'root', ins=['S'])
     nodes += [dnode, snode]
